@@ -15,7 +15,7 @@ Oracle
                   undefined-command                                  instruction that is neither language syntax nor a defined command
                   incomplete-condition:{watch,alarm}:{no-arg,tag-only,no-value,no-tag}
                 each must have >= 1 ERROR item whose range starts on that line.
-                signature  unflagged:<construct>:<similarity class of the name>
+                signature  unflagged:<construct>[:<similarity class of the undefined name>]
   lint        : when the analysis itself does not raise, lint returns exactly one diagnostic per analyzer
                 item (same line / code / severity) and not the single generic "Parse error" diagnostic.
                 signatures lint:raised:<Exc>, lint:collapsed, lint:items-mismatch
@@ -65,6 +65,7 @@ TIERS = {
 EXCLUDE_KNOWN = True
 KNOWN_FREE_PERCENT = 25   # share of cases in which known triggers are allowed
 KNOWN_TRIGGER = "far-undefined-tag (len>2, tags defined, no similar name) in Watch/Alarm/Simulate/Simulate off"
+KNOWN_TRIGGER_MACRO = "macro that calls a self-recursive macro"
 
 BUILTIN = ["Mark", "Block", "End block", "End blocks", "Batch", "Watch", "Alarm", "Macro", "Call macro", "Notify",
            "Base", "Increment run counter", "Run counter", "Wait", "Stop", "Pause", "Unpause", "Hold", "Unhold", "Restart",
@@ -379,7 +380,8 @@ def check_case(case) -> list[Violation]:
         if "InvalidIndentation" in ids:
             continue
         if not ids:
-            out.append(Violation("unflagged:%s:%s" % (d["construct"], d["sim"]),
+            sig = "unflagged:" + d["construct"] + (":" + d["sim"] if d["construct"].startswith("undefined-") else "")
+            out.append(Violation(sig,
                                  "line %d %r: %s %r is not reported as an error on that line (items on the line: %r)"
                                  % (d["line"], lines[d["line"]], d["construct"], d["name"],
                                     [(m, i) for (l, m, e, i) in items if l == d["line"]]), case))
@@ -496,6 +498,7 @@ class _Gen:
         self.lines: list[str] = []
         self.kinds: list[str] = []
         self.excluded = 0
+        self.excluded_macro = 0
         self.macros: list[str] = []
         self.tag_names = [t["name"] for t in tags]
         self.cmd_names = [c["name"] for c in cmds] + list(system)
@@ -716,10 +719,16 @@ class _Gen:
             self.emit(depth, "Call macro: " + self.pick([self.word(1, 5), "", (self.macros[-1] + "x") if self.macros else "m"]), "broken:macro-undefined")
         elif k == "macro-recursive":
             a, b = self.word(1, 4), self.word(1, 4)
+            variant = self.pick(["mutual", "self-only", "calls-self-recursive"])
+            if variant == "calls-self-recursive" and EXCLUDE_KNOWN and not self.free:
+                self.excluded_macro += 1
+                variant = self.pick(["mutual", "self-only"])
+            first = b if variant == "mutual" else a
+            second = b if variant == "self-only" else a
             self.emit(depth, "Macro: " + a, "broken:macro-recursive")
-            self.emit(depth + 1, "Call macro: " + self.pick([a, b]), "broken:macro-recursive")
+            self.emit(depth + 1, "Call macro: " + first, "broken:macro-recursive")
             self.emit(depth, "Macro: " + b, "broken:macro-recursive")
-            self.emit(depth + 1, "Call macro: " + a, "broken:macro-recursive")
+            self.emit(depth + 1, "Call macro: " + second, "broken:macro-recursive")
             self.emit(depth, self.pick(["Macro", "Macro:", "Call macro", "Call macro: " + a]), "broken:macro-recursive")
         elif k == "noarg-with-arg":
             self.emit(depth, self.pick(["Stop: 1", "Restart: now", "End block: 3", "End blocks: x", "Increment run counter: 2", "Unpause: 1"]), "broken:noarg-with-arg")
@@ -798,7 +807,11 @@ class _D:
 
 @st.composite
 def cases(draw, max_lines, max_depth):
-    D = _D(draw(st.integers(0, 2 ** 62)), draw(st.lists(st.text(max_size=12), min_size=5, max_size=5)))
+    n0 = draw(st.integers(0, 2 ** 62))
+    pool = draw(st.lists(st.text(max_size=12), min_size=5, max_size=5))
+    # the generator seed depends on every drawn value, so distinct Hypothesis examples give distinct programs
+    import hashlib
+    D = _D(int.from_bytes(hashlib.sha256(repr((n0, pool)).encode("utf-8", "surrogatepass")).digest()[:8], "big"), pool)
     tags = tag_sets(D)
     cmds = cmd_sets(D)
     sysnames = list(_system_defs().keys())
@@ -815,7 +828,7 @@ def cases(draw, max_lines, max_depth):
     case = {"tags": tags, "commands": cmds, "system": system, "lines": g.lines}
     if D.integers(0, 19) == 0:
         case["pylsp_document"] = True
-    return case, {"kinds": g.kinds, "excluded": g.excluded, "free": free, "system_mode": mode}
+    return case, {"kinds": g.kinds, "excluded": g.excluded, "excluded_macro": g.excluded_macro, "free": free, "system_mode": mode}
 
 
 def classify(case, meta, derived):
@@ -856,9 +869,17 @@ def run_shard(col, cfg):
         vs = check_case(case)
         if meta["excluded"]:
             col.count("excluded_known:%s" % KNOWN_TRIGGER, meta["excluded"])
+        if meta["excluded_macro"]:
+            col.count("excluded_known:%s" % KNOWN_TRIGGER_MACRO, meta["excluded_macro"])
         col.record(case, is_nontrivial(derived), classes=classify(case, meta, derived), violations=vs)
 
-    hyp_run(cases(cfg["max_lines"], cfg["depth"]), body, n, shard_seed(col.seed, col.shard), col)
+    import warnings
+    from hypothesis.errors import HypothesisWarning
+    with warnings.catch_warnings():
+        # a RecursionError inside the analysed code (a finding, recorded above) makes Hypothesis warn about its own
+        # recursion-limit bookkeeping on every later example; that is stderr noise, not information
+        warnings.simplefilter("ignore", HypothesisWarning)
+        hyp_run(cases(cfg["max_lines"], cfg["depth"]), body, n, shard_seed(col.seed, col.shard), col)
 
 
 def shrink_hints(case):
